@@ -67,11 +67,13 @@ def _params_ok(rate, bin_, win):
     return (rate * bin_).__floor__() >= 1
 
 
-def _mk(t, lab, ids, rate, bin_, win, sym, ldt='int64'):
+def _mk(t, lab, ids, rate, bin_, win, sym, ldt='int64', tdt='float64'):
+    """tdt = how the spike times are handed to phylib: a float64 array, a float32 array (every time must be a
+    float32; correlograms() converts to float64 BEFORE multiplying by the rate), or a Python list of floats"""
     assert _params_ok(rate, bin_, win), (rate, bin_, win)
     return {'kind': 'ccg', 'inp': {'t': list(t), 'lab': list(lab), 'ids': None if ids is None else list(ids),
                                    'rate': _fr(rate), 'bin': _fr(bin_), 'win': _fr(win), 'sym': bool(sym),
-                                   'ldt': ldt}}
+                                   'ldt': ldt, 'tdt': tdt}}
 
 
 def _mkr(lab, ids, bin_, dur, ldt='int64'):
@@ -119,6 +121,12 @@ def generate(tier, rng):
         cases.append(_mk([-5, -5, -2, 0, 1], [1, 4, 4, 1, 4], [4, 1], 2, 1, 5, sym))  # negative times
         cases.append(_mk([0, 1, 2, 3, 4, 5], [4] * 6, [4], 1, 1, 3, sym))         # window (2W+1)*bin: W = 1
         cases.append(_mk([0, 1024, 2048, 2049], [4, 1, 4, 1], [1, 4], 1024, F(1, 2), 4, sym))
+        # float32 spike times whose product with the rate needs more than 24 bits (exact in float64 only):
+        # times 16777213, 16777215 s at rate 3 -> samples 50331639, 50331645 (lag 6 = bin 2 of binsize 3)
+        cases.append(_mk([3 * 16777213, 3 * 16777215], [4, 1], [1, 4], 3, 1, 4, sym, tdt='float32'))
+        cases.append(_mk([1875 * 16777000, 1875 * 16777001, 1875 * 16777003], [4, 4, 1], None, 30000,
+                         F(1, 16), F(1, 4), sym, tdt='float32'))
+        cases.append(_mk([0, 2, 2, 5], [4, 1, 4, 1], [1, 4], 1, 2, 4, sym, tdt='list'))
     for ids in ([4, 1, 9], [9, 4, 1], [4, 9, 1], [1, 4], None):
         cases.append(_mkr([4, 1, 4, 4], ids, F(1, 4), 2))
     cases.append(_mkr([], [4, 1], 1, 1))
@@ -234,6 +242,12 @@ def _random_ccg(rng, nmax, small=False, big=False):
         if big:
             span = max(span, n // rng.choice([4, 8, 16]))
         t0 = rng.choice([0, 0, 0, -span // 2, 1000])
+        tdt = rng.choice(['float64', 'float64', 'float64', 'list'])
+        if rng.random() < .1 and span < 2 ** 20:
+            # float32 times just below 2^24 time units: time = (t0 + r) * 2^k is a float32, time * rate is exact in
+            # float64 but (for rates with an odd factor) not in float32
+            tdt = 'float32'
+            t0 = 2 ** 24 - 1 - span - rng.randint(0, 3)
         t = sorted(step * (t0 + rng.randint(0, span)) for _ in range(n))
         nc = rng.randint(1, 4)
         pool = rng.sample(range(0, 12), nc + 2)
@@ -247,7 +261,7 @@ def _random_ccg(rng, nmax, small=False, big=False):
             rng.shuffle(ids)
         sym = rng.random() < .5
         ldt = rng.choice(['int64', 'int64', 'int32', 'uint32', 'list'])
-        return _mk(t, labels, ids, rate, bin_, win, sym, ldt)
+        return _mk(t, labels, ids, rate, bin_, win, sym, ldt, tdt)
     raise RuntimeError('no admissible random parameters')
 
 
@@ -324,7 +338,16 @@ def _run_case(case):
         b, w = F(*i['bin']), F(*i['win'])
         if F(float(b)) != b or F(float(w)) != w:
             return ('regime', 'bin/window not floats')
-        out = correlograms(np.array(times, dtype=np.float64), _labels(i['lab'], i['ldt']),
+        tdt = i.get('tdt', 'float64')
+        if tdt == 'list':
+            tarr = list(times)
+        elif tdt == 'float32':
+            tarr = np.array(times, dtype=np.float32)
+            if [float(x) for x in tarr] != times:
+                return ('regime', 'times are not float32 values')
+        else:
+            tarr = np.array(times, dtype=np.float64)
+        out = correlograms(tarr, _labels(i['lab'], i['ldt']),
                            cluster_ids=i['ids'], sample_rate=fr, bin_size=float(b), window_size=float(w),
                            symmetrize=i['sym'])
         out = np.asarray(out)
@@ -405,6 +428,8 @@ def dist(case, obs):
                               'sorted' if ids == sorted(ids) else 'permuted'))
     out.append('%s.labels_dtype=%s' % (k, i['ldt']))
     if k == 'ccg':
+        out.append('ccg.times=%s' % i.get('tdt', 'float64'))
+    if k == 'ccg':
         t = i['t']
         out.append('ccg.n_spikes=' + _bucket(len(t)))
         out.append('ccg.n_clusters=%d' % (len(ids) if ids is not None else len(labs)))
@@ -435,7 +460,33 @@ def size(case):
     return len(i['lab']) * 10 + len(i['ids'] or []) + sum(abs(x) for x in i.get('t', [])) // 10
 
 
+def _times_ok(i):
+    """mirror of the runner's / Corr.params_regime's check on the spike times: every time s/rate is a float64
+    (a float32 when the case hands float32 times to phylib) and time*rate is exact"""
+    import struct
+    rate = F(*i['rate'])
+    fr = float(rate)
+    for s in i['t']:
+        x = F(s) / rate
+        try:
+            fx = float(x)
+        except OverflowError:
+            return False
+        if F(fx) != x or F(fx * fr) != s or abs(s) >= 2 ** 50:
+            return False
+        if i.get('tdt') == 'float32' and struct.unpack('f', struct.pack('f', fx))[0] != fx:
+            return False
+    return True
+
+
 def shrink(case):
+    """candidates of _shrink_raw that stay inside the regime (an out-of-regime candidate would be code 3)"""
+    for c in _shrink_raw(case):
+        if c['kind'] != 'ccg' or _times_ok(c['inp']):
+            yield c
+
+
+def _shrink_raw(case):
     k, i = case['kind'], case['inp']
     n = len(i['lab'])
     # drop a spike (halves first, then single spikes)
@@ -464,6 +515,10 @@ def shrink(case):
     if i.get('ldt') != 'int64':
         j = dict(i)
         j['ldt'] = 'int64'
+        yield {'kind': k, 'inp': j}
+    if k == 'ccg' and i.get('tdt', 'float64') != 'float64':
+        j = dict(i)
+        j['tdt'] = 'float64'
         yield {'kind': k, 'inp': j}
     if k == 'ccg':
         rate = F(*i['rate'])
